@@ -256,7 +256,6 @@ def func_fit(x, y, ncoeff, invvar=None, function_name='legendre', ia=None,
         if nparams > 1:
             # beta = np.dot(ysub * (invvar > 0), finalarr.T)
             beta = np.dot(ysub * invvar, finalarr.T)
-            assert beta.dtype == x.dtype
             # uu,ww,vv = np.linalg.svd(alpha, full_matrices=False)
             res[nonfix] = np.linalg.solve(alpha, beta)
         else:
